@@ -287,6 +287,36 @@ def check_golden(case, stats):
         raise Violation(case, "%s: token listing length differs from the golden file" % case["file"])
 
 
+def check_file_scanner(case, stats):
+    """a scanner made for a feature file delivers that file's lines - also when, by the time it is parsed, the file has another name, the process
+    another working directory, or the file has been deleted"""
+    import shutil
+    src = case["file"]
+    name = "listed-%d.feature" % os.getpid()
+    shutil.copyfile(src, name)
+    want = listing(open(src, encoding="utf8").read())
+    stats.case((os.path.basename(src), case["then"]), True, sample=case)
+    sc = gh.TokenScanner(name)
+    here = os.getcwd()
+    try:
+        if case["then"] == "rename":
+            os.rename(name, name + ".moved")
+        elif case["then"] == "delete":
+            os.unlink(name)
+        elif case["then"] == "chdir":
+            os.makedirs("elsewhere", exist_ok=True)
+            os.chdir("elsewhere")
+        got = gh.Parser(gh.TokenFormatterBuilder()).parse(sc, gh.TokenMatcher("en"))
+    finally:
+        os.chdir(here)
+        for f in (name, name + ".moved"):
+            if os.path.exists(f):
+                os.unlink(f)
+    if got != want:
+        g, w = got.split("\n"), want.split("\n")
+        raise Violation(case, "token listing of a scanner made for a file that was then %sd: %d lines, the file's text gives %d; first lines %r vs %r" % (case["then"].rstrip("e"), len(g), len(w), g[:2], w[:2]))
+
+
 def check_script(case, stats):
     """scripts.generate_tokens.main, in-process, over several corpus files with one parser: printed listing == goldens"""
     import contextlib
@@ -318,11 +348,14 @@ def unit_golden(a):
     names = [os.path.basename(f) for f in files]
     sweep(stats, [{"sub": "script", "files": names[i:i + 6]} for i in range(0, len(names), 6)] + [{"sub": "script", "files": names[::-1][:10]}], check_script)
     sweep(stats, [{"sub": "golden", "file": os.path.basename(f)} for f in files], check_golden)
+    sweep(stats, [{"sub": "file-scanner", "file": f, "then": t} for f in files[::4] for t in ("rename", "delete", "chdir")], check_file_scanner)
     sweep(stats, [{"sub": "text", "text": t, "label": "corpus"} for n, t in noisy.corpus_texts()], check_text)
     return stats
 
 
 def replay(case, stats):
+    if case.get("sub") == "file-scanner":
+        return check_file_scanner(case, stats)
     return {"kinds": check_kinds, "text": check_text, "listing": check_listing, "golden": check_golden, "script": check_script, "formatter-reuse": check_formatter_reuse}[case["sub"]](case, stats)
 
 
